@@ -71,7 +71,8 @@ class C20(Check):
     ]
     rule = ('cases = lists of 0-5 awaitables (coroutine / task / future / already-settled future) each returning or raising '
             'B(Exception), S(B), Un(Exception), H(BaseException), a CancelledError of its own, an exception group, StopAsyncIteration, '
-            'TimeoutError or KeyError (the last five sampled only) after a scripted delay; every outcome combination x every finishing-order '
+            'TimeoutError, KeyError or a falsy exception (the last six sampled only; 15 % of the samples share one exception object among '
+            'the awaitables with the same outcome) after a scripted delay; every outcome combination x every finishing-order '
             'permutation x every `only` in {BaseException, Exception, B, S, Un, H, ExceptionGroup, CancelledError, StopAsyncIteration, LookupError} for <= 3 awaitables (thorough 4), sampled at 4-5; '
             'both gather_excs and raise_first_exc; non-trivial = >= 2 awaitables with >= 1 failure and a finishing order that '
             'differs from input order, or >= 2 failures; distinct = distinct cases')
